@@ -220,6 +220,14 @@ func c08Case(r *core.Run, idx int, rng *rand.Rand) {
 			c.Labels = append(c.Labels, "acs_without_binding")
 		}
 	}
+	if rng.Intn(6) == 0 {
+		// RelayState beyond the 80 bytes the specification recommends (peers do send more)
+		c.HasRel, c.Relay = true, plainString(rng, 81+rng.Intn(40))
+		if rng.Intn(3) == 0 {
+			c.Relay = strings.Repeat(plainString(rng, 32), 4+rng.Intn(60))
+		}
+		c.Labels = append(c.Labels, "long_relaystate")
+	}
 	e, call := c.run(rng, mod)
 	out := judgeSSOOutcome(r, wl, idx, c.label(), e, call, c.describe())
 	if kind == 6 && call.Accepted() {
@@ -251,6 +259,58 @@ func c08Case(r *core.Run, idx int, rng *rand.Rand) {
 	}
 }
 
+// c08Registration: one provider, the requester is re-registered between requests (also as unanswerable).
+func c08Registration(r *core.Run, idx int, rng *rand.Rand) {
+	const wl = "registration_changes"
+	e := env.Static(env.Opts{})
+	d := stdSP(0)
+	d.AuthnRequestsSigned = ""
+	answerable := true
+	version := 0
+	reg := func() {
+		d2 := *d
+		answerable = rng.Intn(3) > 0
+		b := []string{spsim.BindPost, spsim.BindRedirect}[rng.Intn(2)]
+		if !answerable {
+			b = []string{spsim.BindArtifact, spsim.BindPAOS, "urn:example:unknown"}[rng.Intn(3)]
+		}
+		d2.ACS = []spsim.ACS{{Binding: b, Location: fmt.Sprintf("https://sp0.example/acs/v%d", version), Index: "0"}}
+		d.ACS = d2.ACS
+		mustRegister(e.W, &d2, "appA")
+	}
+	reg()
+	for k := 0; k < 8; k++ {
+		if k > 0 && rng.Intn(2) == 0 {
+			version++
+			reg()
+		}
+		before := e.W.NumRequests()
+		a := validAuthn(rng, d)
+		a.ProtocolBinding = []string{"", spsim.BindPost}[rng.Intn(2)]
+		s := ssoSend{Binding: []string{"redirect", "post"}[rng.Intn(2)], XML: a.XML(rng), HasRelay: true, Relay: "MKrelay"}
+		call, _ := s.do(e)
+		class := fmt.Sprintf("registration|answerable=%v|version=%d|step=%d", answerable, version, k)
+		desc := map[string]any{"step": k, "current_acs": d.ACS}
+		out := judgeSSOOutcome(r, wl, idx, class, e, call, desc)
+		r.Eval(fmt.Sprintf("%s|%d|%s", class, idx, out))
+		r.Count("registration_sequence_requests", 1)
+		stored := e.W.NumRequests() - before
+		if !answerable && (out == "accepted" || stored != 0) {
+			r.Violate(core.Violation{Clause: "unanswerable_request_persisted", Class: class, Reason: fmt.Sprintf("the requester is currently registered with the unanswerable binding %s only, yet outcome=%s and %d record(s) were stored", d.ACS[0].Binding, out, stored), Workload: wl, Index: idx, Case: desc, Observed: call.Describe()})
+		}
+		if answerable {
+			if out != "accepted" {
+				r.Count("registration_answerable_not_accepted", 1)
+			} else if ev := call.First("CreateAuthRequest"); ev == nil || len(ev.Args) < 2 || ev.Args[0] != d.ACS[0].Location || ev.Args[1] != d.ACS[0].Binding {
+				r.Violate(core.Violation{Clause: "persisted_with_stale_registration", Class: class, Reason: fmt.Sprintf("persisted %v, current registration %v", ev, d.ACS), Workload: wl, Index: idx, Case: desc, Observed: call.Describe()})
+			}
+			r.Count("registration_answerable_checked", 1)
+		} else {
+			r.Count("registration_unanswerable_checked", 1)
+		}
+	}
+}
+
 func containsLabel(ls []string, l string) bool {
 	for _, x := range ls {
 		if x == l {
@@ -266,12 +326,17 @@ func init() {
 		TimeoutQuick: 5 * time.Minute, TimeoutThorough: 30 * time.Minute,
 		Build: func(c *Ctx) []core.Workload {
 			r := c.Run
-			r.Rule = "each case is one SSO request against a fresh provider+world: conformant / arbitrary consumer bindings {POST,Redirect,Artifact,PAOS,unknown} / only unsupported bindings / invalid at one validation step / signature problems / failing persistence / no usable consumer service. The monitor reads the storage event log and the recorded ResponseWriter calls. Distinct = (labels, outcome, consumer list shape, transport, requested binding); all are non-trivial."
+			r.Rule = "each case is one SSO request against a fresh provider+world: conformant / arbitrary consumer bindings {POST,Redirect,Artifact,PAOS,unknown} / only unsupported bindings / invalid at one validation step / signature problems / failing persistence / no usable consumer service. The monitor reads the storage event log and the recorded ResponseWriter calls. A second workload keeps ONE provider alive while the requester is re-registered between requests, also with an unanswerable binding only. Distinct = (labels, outcome, consumer list shape, transport, requested binding); all are non-trivial."
 			r.Assume("LoginURL of the simulated storage is https://login.idp.example/ui/login?authRequestID=<id>")
 			r.Require("outcome_accepted", 20)
 			r.Require("persist_fault_reached", 5)
 			r.Require("distinct_reply_shapes", 4)
-			return []core.Workload{{Name: "sso_outcomes", N: c.Pick(1600, 16000), Fn: c08Case}}
+			r.Require("registration_unanswerable_checked", 100)
+			r.Require("registration_answerable_checked", 100)
+			return []core.Workload{
+				{Name: "sso_outcomes", N: c.Pick(1600, 16000), Fn: c08Case},
+				{Name: "registration_changes", N: c.Pick(150, 1500), Fn: c08Registration},
+			}
 		},
 		After: func(c *Ctx) {
 			n := int64(0)
